@@ -36,6 +36,8 @@ pub enum Action {
     SetPc(u32),
     SetCcr(u8),
     ClockJump(u64),
+    /// the controller / the send worker is gone: the receiving end of the emulator's outgoing channel is dropped
+    PeerGone,
 }
 
 #[derive(Clone, Debug, Serialize, Deserialize, PartialEq)]
@@ -226,7 +228,7 @@ pub fn run_sys<O: Observer + 'static>(
     let to_cpu = sim.to_cpu.clone();
     // the receiving end stays in `sim`; the callback needs it too: move it into the shared cell
     let from_cpu = std::mem::replace(&mut sim.from_cpu, std::sync::mpsc::channel().1);
-    let from_cpu = Rc::new(from_cpu);
+    let from_cpu = Rc::new(RefCell::new(Some(from_cpu)));
     let sh = shared.clone();
     let rx = from_cpu.clone();
     let cb = Box::new(move |cpu: &mut Cpu| -> anyhow::Result<()> {
@@ -237,8 +239,8 @@ pub fn run_sys<O: Observer + 'static>(
         if iter >= s.step_cap {
             return Err(abort("step-cap"));
         }
-        let new_msgs: Vec<String> = rx.try_iter().collect();
-        let row = Row { iter, pc: cpu.verif_pc(), sp: cpu.er[7], ccr: cpu.verif_ccr(), state: cpu.verif_state_sum() as u64, npend: cpu.verif_pending().len() as u32 };
+        let new_msgs: Vec<String> = rx.borrow().as_ref().map(|r| r.try_iter().collect()).unwrap_or_default();
+        let row = Row { iter, pc: cpu.verif_pc(), sp: cpu.er[7], ccr: cpu.verif_ccr(), state: cpu.verif_state_sum() as u64, npend: cpu.verif_pending_len() as u32 };
         let prev = s.last;
         trace_fold(((row.pc as u64) << 32) | row.sp as u64);
         trace_fold(((row.ccr as u64) << 56) ^ row.state ^ ((row.npend as u64) << 40));
@@ -279,6 +281,9 @@ pub fn run_sys<O: Observer + 'static>(
                     Action::SetPc(v) => cpu.verif_set_pc(*v),
                     Action::SetCcr(v) => cpu.verif_set_ccr(*v),
                     Action::ClockJump(ns) => s.jump.set(s.jump.get().saturating_add(*ns)),
+                    Action::PeerGone => {
+                        *rx.borrow_mut() = None;
+                    }
                 }
                 let act = s.events[i].act.clone();
                 s.obs.fired(cpu, &s.guest, &row, i, &act);
@@ -296,7 +301,7 @@ pub fn run_sys<O: Observer + 'static>(
         Ok(c) => c.into_inner(),
         Err(_) => panic!("harness: callback still alive after run()"),
     };
-    let tail: Vec<String> = from_cpu.try_iter().collect();
+    let tail: Vec<String> = from_cpu.borrow().as_ref().map(|r| r.try_iter().collect()).unwrap_or_default();
     let last = shared.last;
     let mut failure = shared.failure.take();
     if failure.is_none() && !matches!(outcome, Outcome::Panic(_)) {
